@@ -13,7 +13,7 @@ PID = "C06"
 
 
 def build(tier, rng, work):
-    graphs = [PP.eager_graph(n) for n in PP.plan(tier)]
+    graphs = [PP.eager_graph(n) for n in PP.plan(tier)] + PP.pair_graphs(rng, 10 if tier == "quick" else 120)
     graphs += PP.lazy_graphs("tut13", [rng.randrange(1 << 30) for _ in range(3 if tier == "quick" else 12)], work)
     if tier != "quick":
         graphs += PP.lazy_graphs("gui3", [rng.randrange(1 << 30) for _ in range(8)], work)
